@@ -42,7 +42,8 @@ def plant(tree, d, fault):
         os.mkfifo(os.path.join(base, b".pipe"))
         return ".pipe"
     if fault == "sidecar-fifo":
-        os.mkfifo(os.path.join(base, b"b.txt.abstract"))
+        if not os.path.lexists(os.path.join(base, b"b.txt.abstract")):
+            os.mkfifo(os.path.join(base, b"b.txt.abstract"))
         return "b.txt.abstract"
     if fault == "cap-fifo":
         os.makedirs(os.path.join(base, b".cap"), exist_ok=True)
@@ -64,7 +65,8 @@ def plant(tree, d, fault):
         tree.write(d + "/rate..5%s.txt", b"name the filter rejects\n")
         return "rate..5%s.txt"
     if fault == "noperm-sidecar":
-        tree.write(d + "/b.txt.abstract", b"an abstract the server may not read\n")
+        if not os.path.lexists(os.path.join(base, b"b.txt.abstract")):      # (a FIFO of that name may be there already: writing to it would wait)
+            tree.write(d + "/b.txt.abstract", b"an abstract the server may not read\n")
         tree.write(d + "/c dir/.abstract", b"neither this one\n")
         return "b.txt.abstract"
     if fault == "latin1-dangling":
